@@ -582,6 +582,76 @@ def r7_api(idx, r):
                 r.undecided(key, (m.relpath, 1), f"module does not export {name}")
 
 
+def r8_header_locals(idx, r):
+    """Contradiction rule: a header-derived count bound under the same local name in two methods of
+    one stream class (array allocation in one, loop bound in another) must have one definition."""
+    import collections
+
+    for m in _cccc_modules(idx):
+        for c in m.classes.values():
+            defs = collections.defaultdict(list)
+            for f in c.methods.values():
+                for k, v in single_assign_env(f.node).items():
+                    if len(k) < 3 or isinstance(v, ast.Constant):
+                        continue
+                    if any(isinstance(x, ast.Call) and (call_attr(x) or "").startswith("rw") for x in ast.walk(v)):
+                        continue
+                    defs[k].append((f, v))
+            for k, lst in sorted(defs.items()):
+                if len(lst) < 2 or not any("metadata" in norm(v).lower() for _, v in lst):
+                    continue
+                ref_f, ref_v = next((f, v) for f, v in lst if "metadata" in norm(v).lower())
+                for f, v in lst:
+                    if v is ref_v:
+                        continue
+                    r.require(norm(v) == norm(ref_v), f"{m.relpath.rsplit('/', 1)[-1]}:{c.name}:{k}:{f.name}", f, node=v,
+                              msg=f"`{k}` is `{norm(v)}` here but `{norm(ref_v)}` in {ref_f.name}: the amount of data allocated/announced and the amount read or written differ")
+
+
+def _fresh_mutable(v):
+    if isinstance(v, (ast.List, ast.Dict, ast.Set, ast.ListComp, ast.DictComp)):
+        return True
+    if isinstance(v, ast.BinOp) and isinstance(v.op, ast.Mult) and (isinstance(v.left, ast.List) or isinstance(v.right, ast.List)):
+        return True
+    if isinstance(v, ast.Call) and dotted(v.func) in ("list", "dict", "np.zeros", "np.empty", "np.array", "numpy.zeros", "collections.OrderedDict"):
+        return True
+    return False
+
+
+def r9_no_shared_placeholder(idx, r):
+    """A fresh mutable object bound to a local and then stored into two different storage locations
+    makes the fields alias each other: what is read into one overwrites the other."""
+    n = 0
+    for m in _cccc_modules(idx):
+        for f in m.all_funcs():
+            env = single_assign_env(f.node)
+            fresh = {k for k, v in env.items() if _fresh_mutable(v)}
+            uses = {}
+            for s in iter_stores(f.node):
+                if s.value is None or s.kind not in ("assign", "subscript") or isinstance(s.node, ast.Name):
+                    continue
+                for x in ast.walk(s.value):
+                    # the local itself is stored (directly, or as the fallback of `a or local` / conditional expression)
+                    if isinstance(x, ast.Name) and x.id in fresh and _value_position(s.value, x):
+                        uses.setdefault(x.id, set()).add(norm(s.node))
+            for k in sorted(fresh):
+                locs = uses.get(k, set())
+                n += 1
+                r.require(len(locs) <= 1, f"{m.relpath.rsplit('/', 1)[-1]}:{f.qualname}:{k}", f, node=env[k],
+                          msg=f"one mutable object `{k} = {norm(env[k])}` is stored into {len(locs)} different fields {sorted(locs)}; they alias each other")
+
+
+def _value_position(value, name):
+    """True when `name` can BE the stored value (not merely an index/argument inside it)."""
+    if value is name:
+        return True
+    if isinstance(value, ast.BoolOp):
+        return any(_value_position(v, name) for v in value.values)
+    if isinstance(value, ast.IfExp):
+        return _value_position(value.body, name) or _value_position(value.orelse, name)
+    return False
+
+
 def run(idx, chk):
     chk.explanation = (
         "C09: static reader/writer agreement for CCCC records: struct formats, byte counters and ASCII field widths of "
@@ -614,3 +684,7 @@ def run(idx, chk):
                  necessary="an unsatisfiable guard drops a record for every header value; a duplicate key loses a field")
     chk.run_rule("R09.7", "each format exports read/write x binary/ascii bound to the right mode and record class", lambda r: r7_api(idx, r), floor=30,
                  necessary="a mode mapped to the wrong record class reads text as binary or vice versa")
+    chk.run_rule("R09.8", "a header-derived count bound to the same local name in two methods of a stream class has one definition", lambda r: r8_header_locals(idx, r), floor=4,
+                 necessary="allocation/announcement and loop bound must agree or data is dropped from the record")
+    chk.run_rule("R09.9", "no fresh mutable placeholder object is stored into two different fields of the container", lambda r: r9_no_shared_placeholder(idx, r), floor=10,
+                 necessary="aliased fields cannot both hold what was read")
